@@ -248,7 +248,21 @@ def run(chk, repo):
             except Inconclusive:
                 pass
     fs = [s for s in docstring_free(zc.body) if isinstance(s, ast.If)]
-    chk.require(len(fs) == 1 and same_cond(norm_cmp(fs[0].test), parse_cond("first_sign == 0")),
+    # what last_sign holds before the test (a plain copy of first_sign, a sign expression, ...)
+    pre = None
+    for st in docstring_free(zc.body):
+        if fs and st is fs[0]:
+            break
+        if isinstance(st, ast.Assign) and unparse(st.targets[0]) == "last_sign":
+            pre = st
+    test0 = fs[0].test if fs else None
+    if test0 is not None and pre is not None and unparse(pre.value) == "first_sign":
+        # the test is on the copy
+        class _R(ast.NodeTransformer):
+            def visit_Name(self, n):
+                return ast.Name(id="first_sign", ctx=ast.Load()) if n.id == "last_sign" else n
+        test0 = _R().visit(ast.parse(unparse(test0), mode="eval").body)
+    chk.require(len(fs) == 1 and same_cond(norm_cmp(test0), parse_cond("first_sign == 0")),
                 "zcross: 'if first_sign == 0' block not found")
     blk = fs[0]
     loop1 = [s for s in blk.body if isinstance(s, ast.For)]
@@ -274,13 +288,16 @@ def run(chk, repo):
         chk.decide(ok, "C20.zcross", WA("zcross"), "first sign: " + short(asg) + " ; then break",
                    why="sign must be -1 for negative samples and +1 otherwise, and the search must stop", node=asg)
     init0 = [s for s in blk.body if isinstance(s, ast.Assign) and unparse(s) == "last_sign = 0"]
-    chk.decide(len(init0) == 1, "C20.zcross", WA("zcross"), "last_sign = 0 while unknown (all-in-band input: no crossing)",
+    zero_by_copy = pre is not None and unparse(pre.value) in ("first_sign", "0")     # first_sign == 0 on this arm
+    chk.decide(len(init0) == 1 or (not init0 and zero_by_copy), "C20.zcross", WA("zcross"),
+               "last_sign = 0 while unknown (all-in-band input: no crossing)",
                why="an unknown sign must not produce crossings", node=blk)
-    els = blk.orelse
-    ok = len(els) == 1 and isinstance(els[0], ast.Assign) and unparse(els[0].targets[0]) == "last_sign" \
-        and _sign_expr(els[0].value, "first_sign")
-    chk.decide(ok, "C20.zcross", WA("zcross"), "given first_sign: " + (short(els[0]) if els else "?"),
-               why="a non-zero first_sign fixes the initial sign by its own sign", node=blk)
+    els = [s for s in blk.orelse if isinstance(s, ast.Assign) and unparse(s.targets[0]) == "last_sign"]
+    given = els[-1] if els else pre
+    ok = given is not None and _sign_expr(given.value, "first_sign") and len(blk.orelse) <= 1
+    chk.decide(ok, "C20.zcross", WA("zcross"), "given first_sign: " + (short(given) if given is not None else "last_sign unbound"),
+               why="a non-zero first_sign fixes the initial sign by its own sign (-1 if negative, +1 otherwise): any other "
+                   "magnitude scales the crossing threshold 'el * last_sign < -hysteresis'", node=blk)
     loop2 = [s for s in docstring_free(zc.body) if isinstance(s, ast.For)]
     chk.require(len(loop2) == 1, "zcross: main loop not found")
     l2 = loop2[0]
@@ -519,6 +536,25 @@ def run(chk, repo):
             return ev.ev(node.args[0])
         if name == "abs":
             return opaque("abs", ev.ev(node.args[0]))
+        # a sibling strategy called by name: its own result with its own parameters (defaults included)
+        if isinstance(f, ast.Attribute) and unparse(f.value) == "envelope" and not node.keywords:
+            try:
+                sib = repo.strategy(LA, "envelope", f.attr).node
+            except AnalysisError:
+                return None
+            ps = [a.arg for a in sib.args.args]
+            dfl = sib.args.defaults
+            bind = {}
+            for p_, d_ in zip(ps[len(ps) - len(dfl):], dfl):
+                bind[p_] = Evaluator().ev(d_)
+            for p_, a_ in zip(ps, node.args):
+                bind[p_] = ev.ev(a_)
+            if set(bind) != set(ps):
+                return None
+            rr = docstring_free(sib.body)[-1]
+            if not isinstance(rr, ast.Return):
+                return None
+            return Evaluator(bind, call_hook=comp_hook).ev(rr.value)
         return None
     specs = {"rms": "lowpass(cutoff)(sig ** 2) ** .5", "abs": "lowpass(cutoff)(abs(sig))",
              "squared": "lowpass(cutoff)(sig ** 2)"}
